@@ -18,7 +18,11 @@ of the behaviour, the store is the real LocalPipelineIo behind a proxy that inje
 (BaseException = crash, OSError = failed transfer) at the entry of a put_item, after k bytes of its source
 stream (so the real put_item leaves a really truncated item) or at its exit, or - action Refuse - INSIDE the real
 put_item by making every open-for-writing below the item's store directory raise ENOSPC (builtins.open, io.open,
-os.open), so that the clean-up path of put_item runs with no destination / temporary file created; at every hook the real store
+os.open), so that the clean-up path of put_item runs with no destination / temporary file created;
+or - action StoreFail - by letting a low-level step of the real store-side write fail: a REAL RLIMIT_FSIZE of 0 / half /
+all-but-one byte of the item while the real put_item runs (EFBIG from the kernel inside a write() for the item larger
+than the stream buffer, at the flush of the buffered tail in close() for the others) or a failing os.replace/os.rename
+onto the item's name; at every hook the real store
 (absent / partial / complete by byte comparison) and the location of the image directory are compared with
 the spec state (differences = CONFORMANCE-DRIFT).  At every quiescent point the property's sentences are
 evaluated on the REAL store and directories (these are the VIOLATION monitors; TLC's evaluation of the same
@@ -43,7 +47,7 @@ import types
 from lib import repo, tla
 
 INDEX = "index.wtml"
-ACTS = ["Start", "NextImage", "BeginPut", "EndPut", "Rename", "Finish", "Crash", "Fail", "Refuse"]
+ACTS = ["Start", "NextImage", "BeginPut", "EndPut", "Rename", "Finish", "Crash", "Fail", "Refuse", "StoreFail"]
 STORE_CFG = "toasty-pipeline-config.yaml"
 FAKE_SOURCE = "_c18_fake"
 
@@ -53,6 +57,13 @@ K_INDEX_INCOMPLETE = "C18:publish:quiescent:index-with-missing-file"
 K_PUBLISHED = "C18:publish:quiescent:published-with-incomplete-file"
 K_REFRESH = "C18:refresh:skips-incomplete-image"
 K_RERUN = "C18:publish:rerun-does-not-complete"
+K_INDEX_TRUNC = "C18:refresh:skips-image-with-incomplete-index"
+
+# realisations of the spec action StoreFail: a real RLIMIT_FSIZE of 0 / half / all-but-one byte of the item while the real
+# put_item runs (the kernel refuses the write with EFBIG: at a write() inside the copy for an item larger than the
+# stream buffer, at the flush of the buffered tail in close() otherwise), or the rename onto the item's name failing
+STORE_VARIANTS = ["fsize:0", "fsize:half", "fsize:tail", "replace"]
+BIG = "data.png"        # this file is larger than two stream buffers, the others fit into one
 
 
 # ------------------------------------------------------------------------------------------------
@@ -123,19 +134,20 @@ class Graph(object):
                 for a in acts:
                     acc.append((a, t))
                     if self.state[t]["pc"] == "idle":
-                        out.append(list(acc))
+                        for v in (STORE_VARIANTS if a == "StoreFail" else [None]):
+                            out.append((list(acc), v))
                     else:
                         dfs(t, acc)
                     acc.pop()
         dfs(key, [])
-        self._segs[key] = [Plan(self, key, seg) for seg in out]
+        self._segs[key] = [Plan(self, key, seg, v) for seg, v in out]
         return self._segs[key]
 
 
 class Plan(object):
     """One run of publish() as the spec describes it, arranged by the hooks at which the real run is observed."""
 
-    def __init__(self, g, key0, seg):
+    def __init__(self, g, key0, seg, variant=None):
         self.key0 = key0
         self.end = seg[-1][1]
         self.queue = None
@@ -154,8 +166,10 @@ class Plan(object):
                 self.puts.append({"img": cur["cur"], "file": cur["order"][cur["k"] - 1], "pre": cur, "mid": st, "post": None})
             elif act == "EndPut":
                 self.puts[-1]["post"] = st
-            elif act in ("Crash", "Fail", "Refuse"):
-                if act == "Refuse":
+            elif act in ("Crash", "Fail", "Refuse", "StoreFail"):
+                if act == "StoreFail":
+                    where, ordinal = "store", len(self.puts) - 1
+                elif act == "Refuse":
                     where, ordinal = "open", len(self.puts)
                     self.puts.append({"img": cur["cur"], "file": cur["order"][cur["k"] - 1], "pre": cur, "mid": None, "post": None})
                 elif cur["pc"] == "writing":
@@ -167,6 +181,8 @@ class Plan(object):
                     where, ordinal = "exit", len(self.puts) - 1
                 self.fault = {"kind": act, "where": where, "ordinal": ordinal,
                               "image": self.puts[ordinal]["img"], "file": self.puts[ordinal]["file"]}
+                if variant:
+                    self.fault["variant"] = variant
             cur = st
         self.final = cur
         self.nsteps = len(seg)
@@ -189,7 +205,49 @@ class TransferFailed(OSError):
 
 
 def content(img, fn):
-    return ("%s/%s|" % (img, fn)).encode() + bytes(range(65, 65 + 20))
+    head = ("%s/%s|" % (img, fn)).encode()
+    if fn == BIG:
+        return head + (bytes(range(256)) * 80)[:20000]
+    return head + bytes(range(65, 65 + 20))
+
+
+@contextlib.contextmanager
+def fsize_limit(nbytes):
+    """A real file-size limit for this process: the kernel fails any write beyond `nbytes` with EFBIG."""
+    import resource
+    import signal
+    old = signal.signal(signal.SIGXFSZ, signal.SIG_IGN)
+    soft, hard = resource.getrlimit(resource.RLIMIT_FSIZE)
+    resource.setrlimit(resource.RLIMIT_FSIZE, (nbytes, hard))
+    try:
+        yield
+    finally:
+        resource.setrlimit(resource.RLIMIT_FSIZE, (soft, hard))
+        signal.signal(signal.SIGXFSZ, old)
+
+
+@contextlib.contextmanager
+def refuse_rename(prefix, exc, on_hit):
+    """While active, renaming anything onto a path below `prefix` raises `exc` (os.replace, os.rename)."""
+    prefix = os.path.abspath(prefix) + os.sep
+    real_replace, real_rename = os.replace, os.rename
+
+    def wrap(real):
+        def f(src, dst, *a, **kw):
+            try:
+                hit = os.path.abspath(os.fsdecode(os.fspath(dst))).startswith(prefix)
+            except TypeError:
+                hit = False
+            if hit:
+                on_hit()
+                raise exc
+            return real(src, dst, *a, **kw)
+        return f
+    os.replace, os.rename = wrap(real_replace), wrap(real_rename)
+    try:
+        yield
+    finally:
+        os.replace, os.rename = real_replace, real_rename
 
 
 @contextlib.contextmanager
@@ -226,8 +284,10 @@ def refuse_creation(prefix, exc, on_hit):
 class FaultStream(object):
     CHUNK = 5
 
-    def __init__(self, src, on_first_read, fault_after, exc):
+    def __init__(self, src, on_first_read, fault_after, exc, chunk=None):
         self._src, self._cb, self._after, self._exc = src, on_first_read, fault_after, exc
+        if chunk:
+            self.CHUNK = chunk
         self.sent = 0
         self.started = False
 
@@ -473,13 +533,16 @@ class Bench(object):
                 if flt:
                     exc = (SimulatedCrash("crash") if flt["kind"] == "Crash" else
                            TransferFailed(errno.ENOSPC, "No space left on device") if flt["kind"] == "Refuse" else
+                           TransferFailed(errno.EIO, "Input/output error") if flt["kind"] == "StoreFail" else
                            TransferFailed("transfer failed"))
+                size = len(content(*path)) if len(path) == 2 else 0
+                chunk = 4099 if size > 1000 else FaultStream.CHUNK
                 if flt and flt["where"] == "entry":
                     st["injected"] = True
                     raise exc
                 after = None
                 if flt and flt["where"] == "during":
-                    after = 0 if (n + plan.start["faults"]) % 2 == 0 else 2 * FaultStream.CHUNK
+                    after = 0 if (n + plan.start["faults"]) % 2 == 0 else 2 * chunk
 
                 def first_read():
                     if after is not None:
@@ -487,8 +550,26 @@ class Bench(object):
                     if exp is not None and exp["mid"] is not None:
                         compare(exp["mid"], "while put #%d %s is writing (%s store model)"
                                 % (n + 1, list(path), "atomic" if model_atomic else "in-place"))
-                stream = FaultStream(source, first_read, after, exc)
-                if flt and flt["where"] == "open":
+                stream = FaultStream(source, first_read, after, exc, chunk)
+                if flt and flt["where"] == "store":
+                    # a low-level step of the store-side write fails inside the real put_item
+                    var = flt["variant"]
+                    if var == "replace":
+                        with refuse_rename(os.path.join(bench.store, path[0]), exc, lambda: st.__setitem__("injected", True)):
+                            self._real.put_item(*path, source=stream)
+                        if not st["injected"]:
+                            st["na"] = True         # this put_item does not rename anything into place
+                    else:
+                        limit = {"fsize:0": 0, "fsize:half": size // 2, "fsize:tail": size - 1}[var]
+                        try:
+                            with fsize_limit(limit):
+                                self._real.put_item(*path, source=stream)
+                        except OSError as e:
+                            if e.errno != errno.EFBIG:
+                                raise
+                            st["injected"] = True
+                            raise TransferFailed(e.errno, "%s (file-size limit %d of %d bytes)" % (e.strerror, limit, size)) from e
+                elif flt and flt["where"] == "open":
                     # the store refuses to create the destination: every open-for-writing of a path below the item's
                     # store directory raises, INSIDE the real put_item (whatever file name it writes to first)
                     with refuse_creation(os.path.join(bench.store, path[0]), exc, lambda: st.__setitem__("injected", True)):
@@ -522,13 +603,16 @@ class Bench(object):
         if st["sync"] and not st["listed_top"]:
             st["sync"] = False
             drift("publish() did not list approved/ through os.listdir: the listing order of the behaviour could not be imposed")
-        if plan.fault and not st["injected"]:
+        if st.get("na"):
+            st["sync"] = False
+        elif plan.fault and not st["injected"]:
             st["sync"] = False
             drift("the planned fault (%s) was never reached" % (plan.fault,))
         if st["sync"] and not plan.fault and st["nput"] != len(plan.puts):
             st["sync"] = False
             drift("%d transfers, spec %d" % (st["nput"], len(plan.puts)))
-        return {"outcome": outcome, "error": err, "sync": st["sync"], "drifts": drifts, "alarms": alarms, "calls": st["calls"]}
+        return {"outcome": outcome, "error": err, "sync": st["sync"], "drifts": drifts, "alarms": alarms, "calls": st["calls"],
+                "na": bool(st.get("na"))}
 
 
 def probe_store_model(root):
@@ -626,6 +710,10 @@ class Walker(object):
                                  % (self.how(plan, res), i, real["loc"][i], allbad, [real["store"][i][f] for f in allbad]), hist, real)
             if i in skips and INDEX in fs and real["store"][i][INDEX] == "partial":
                 self.weak_whole += 1
+                if not (before["store"][i][INDEX] == "partial" and i in self.skipped_before):
+                    self.finding(K_INDEX_TRUNC, "after the %s the store holds an incomplete %s/index.wtml (not byte-identical to the approved "
+                                 "file) and pipeline refresh skips %s as already done%s"
+                                 % (self.how(plan, res), i, i, "" if final["whole"] else " (TLC: SkippedIsWhole is FALSE in this state of the spec)"), hist, real)
         if plan.fault is None:
             done = all(real["loc"][i] == "published" and all(v == "complete" for v in real["store"][i].values()) for i in self.files)
             if res["outcome"] != "returned" or not done:
@@ -648,6 +736,9 @@ class Walker(object):
         f = plan.fault
         if f is None:
             return "run"
+        if f["kind"] == "StoreFail":
+            return "store-side %s failing while %s/%s is written" % (
+                "rename" if f["variant"] == "replace" else "write (real file-size limit, %s)" % f["variant"], f["image"], f["file"])
         if f["kind"] == "Refuse":
             return "store refusing (ENOSPC) to create the file for %s/%s" % (f["image"], f["file"])
         return "%s %s the transfer of %s/%s" % ("crash" if f["kind"] == "Crash" else "failed transfer",
@@ -661,6 +752,8 @@ class Walker(object):
         self.skipped_before = b.refresh_skips(digest(snap))
         res = b.run(plan, self.atomic)
         self.runs += 1
+        if res["na"]:
+            self.stray_na = getattr(self, "stray_na", 0) + 1
         after = b.snapshot()
         dg = digest(after)
         hist2 = hist + [plan]
@@ -689,9 +782,10 @@ class Walker(object):
 
     def report(self):
         r = {"findings": self.findings, "drifts": self.drifts, "ndrift": self.ndrift, "runs": self.runs,
-             "distinct": self.distinct, "stray": self.stray, "weak_whole": self.weak_whole, "samples": self.samples}
+             "distinct": self.distinct, "stray": self.stray, "na": getattr(self, "stray_na", 0), "weak_whole": self.weak_whole, "samples": self.samples}
         self.findings, self.drifts, self.ndrift, self.runs = {}, [], 0, 0
         self.distinct, self.stray, self.weak_whole, self.samples = set(), 0, 0, []
+        self.stray_na = 0
         return r
 
 
@@ -730,7 +824,7 @@ def replay_graph(ctx, graph, atomic, share, tag):
             for f in fs:
                 snap0["work/approved/%s/%s" % (i, f)] = content(i, f)
         frontier[(rk, rk, digest(snap0), ())] = [snap0, 1, []]
-    agg = {"runs": 0, "paths": 0, "ndrift": 0, "stray": 0, "weak_whole": 0, "nodes": 0, "levels": 0}
+    agg = {"runs": 0, "paths": 0, "ndrift": 0, "stray": 0, "weak_whole": 0, "nodes": 0, "levels": 0, "na": 0}
     found = {}
     with mp.get_context("fork").Pool(8) as pool:
         while frontier:
@@ -746,7 +840,7 @@ def replay_graph(ctx, graph, atomic, share, tag):
             results = pool.map(_expand, [(nk[0], nk[1], snap, hist, base, atomic) for nk, snap, cnt, hist in items], chunksize=1)
             frontier = {}
             for (nk, snap, cnt, hist), r in zip(items, results):
-                for k in ("runs", "ndrift", "stray", "weak_whole"):
+                for k in ("runs", "ndrift", "stray", "weak_whole", "na"):
                     agg[k] += r[k]
                 for key, (n, msg, rep) in sorted(r["findings"].items()):
                     f = found.setdefault(key, [0, msg, rep])
@@ -961,6 +1055,7 @@ def run(ctx):
         rnote[tag] = {"runs_of_real_publish": agg["runs"], "complete_paths_covered": agg["paths"],
                       "distinct_nodes (spec idle state, disk contents)": agg["nodes"], "runs_with_drift": agg["ndrift"],
                       "runs_leaving_stray_store_entries": agg["stray"],
+                      "store_fault_variants_not_applicable (put_item renames nothing)": agg["na"],
                       "quiescent_states_where_refresh_skips_an_image_whose_index_itself_is_truncated (not claimed by the property)": agg["weak_whole"]}
     long_name_scenario(ctx)
     ctx.note("graph", gnote)
